@@ -37,6 +37,22 @@ func (k *kit) AdoptAll() {
 	}
 }
 
+// Forget drops the scripted backend of a backend that was removed from the balancer: audits
+// that walk the stubs are about the backends the deployment has.
+func (k *kit) Forget(name string) {
+	for i, st := range k.stubs {
+		if st.name == name {
+			k.stubs = append(k.stubs[:i:i], k.stubs[i+1:]...)
+			for h, x := range k.byHost {
+				if x == st {
+					delete(k.byHost, h)
+				}
+			}
+			return
+		}
+	}
+}
+
 // AutoAdopt makes adoption atomic with the add: it runs at every scheduling point, so no
 // other thread can see a new backend before its scripted transport is installed.
 func (k *kit) AutoAdopt() { k.s.OnPoint = k.AdoptAll }
